@@ -61,9 +61,9 @@ def bindingAccess (body : List TStmt) (attrs : List Attr) : Perm :=
 def declares : Stmt → List (Cat × Str × List Attr)
   | .var ns as => ns.map (fun n => (.var, n, as))
   | .typeDef n as _ => [(.type, n, as)]
-  | .iface .generic n _ => [(.iface, n, [])]
-  | .iface .abstract _ ps => ps.map (fun q => (.absIface, q, []))
-  | .iface .plain _ ps => ps.map (fun q => (.iface, q, []))
+  | .iface .generic n _ _ => [(.iface, n, [])]
+  | .iface .abstract _ ps _ => ps.map (fun q => (.absIface, q, []))
+  | .iface .plain _ ps _ => ps.map (fun q => (.iface, q, []))
   | .proc f n => [(if f then .func else .sub, n, [])]
   | _ => []
 
